@@ -5,9 +5,13 @@ be discharged is reported as a violation (with `no-failing-input-found` when the
 import glob, json, os
 root = os.path.dirname(os.path.dirname(os.path.abspath(__file__)))
 keys = set()
+digest = {}
 for p in glob.glob(os.path.join(root, "evidence", "C*.json")):
     ev = json.load(open(p))
     keys |= set(ev["coverage"].get("t1_fully_discharged", []))
-out = {"fully_discharged": sorted(keys)}
+    digest.update(ev["coverage"].get("t1_vc_digest", {}))
+# vc_digest: sha1 over the formulas of the contract as discharged; a later run whose formulas are identical and whose solver
+# merely runs out of budget is recorded as undecided instead of reported (pyvc/run.py)
+out = {"fully_discharged": sorted(keys), "vc_digest": {k: digest[k] for k in sorted(digest) if k in keys}}
 json.dump(out, open(os.path.join(root, "contracts", "BASELINE_DISCHARGED.json"), "w"), indent=1)
 print(len(keys), "contracts in baseline")
